@@ -1,6 +1,8 @@
 /- Source tie for C06 (continued): `uniform_proportional_crossover`, `uniform_rank_crossover` and
    `empty_crossover` as translated from /repo on this run equal `BinOps.uniformX` (locus i from parent
-   `choice[i]`; `sampled` = the result of the `random_weighted_sample` call) and `BinOps.emptyX`. -/
+   `choice[i]`; `wsampler w q replace k` = the result of the k-th `random_weighted_sample(w, q, replace)`
+   call, so the theorems also say that the weights are the FITNESS / the RANK vector, that one index per
+   locus is asked for, with replacement) and `BinOps.emptyX`. -/
 import TFV.Lemmas.Src.BinKernels2
 
 namespace TFV.SrcTie
@@ -8,15 +10,19 @@ open TFV.Generated.Src
 
 theorem C06_src_uniform_proportional_crossover (ps : List (List Int)) (fit rank : List Int) (ch : List Nat)
     (hne : ps ≠ []) (hrows : ∀ r ∈ ps, r.length = (ps.headD []).length)
-    (hlen : ch.length = (ps.headD []).length) (hch : ∀ c ∈ ch, c < ps.length) :
-    uniform_proportional_crossover ps fit rank (ch.map Int.ofNat) = some (BinOps.uniformX ps ch) :=
-  src_uniform_proportional_crossover ps fit rank ch hne hrows hlen hch
+    (hlen : ch.length = (ps.headD []).length) (hch : ∀ c ∈ ch, c < ps.length)
+    (wsampler : List Int → Int → Bool → Nat → List Int)
+    (hsm : wsampler fit ((ps.headD []).length : Int) true 0 = ch.map Int.ofNat) :
+    uniform_proportional_crossover ps fit rank wsampler = some (BinOps.uniformX ps ch) :=
+  src_uniform_proportional_crossover ps fit rank ch hne hrows hlen hch wsampler hsm
 
 theorem C06_src_uniform_rank_crossover (ps : List (List Int)) (fit rank : List Int) (ch : List Nat)
     (hne : ps ≠ []) (hrows : ∀ r ∈ ps, r.length = (ps.headD []).length)
-    (hlen : ch.length = (ps.headD []).length) (hch : ∀ c ∈ ch, c < ps.length) :
-    uniform_rank_crossover ps fit rank (ch.map Int.ofNat) = some (BinOps.uniformX ps ch) :=
-  src_uniform_rank_crossover ps fit rank ch hne hrows hlen hch
+    (hlen : ch.length = (ps.headD []).length) (hch : ∀ c ∈ ch, c < ps.length)
+    (wsampler : List Int → Int → Bool → Nat → List Int)
+    (hsm : wsampler rank ((ps.headD []).length : Int) true 0 = ch.map Int.ofNat) :
+    uniform_rank_crossover ps fit rank wsampler = some (BinOps.uniformX ps ch) :=
+  src_uniform_rank_crossover ps fit rank ch hne hrows hlen hch wsampler hsm
 
 theorem C06_src_empty_crossover (a : List Int) (more : List (List Int)) (fit rank : List Int) :
     empty_crossover (a :: more) fit rank = some (BinOps.emptyX (a :: more)) :=
